@@ -434,3 +434,136 @@ Lemma items_eq_ints a b : json_items_eq (JInt a) (JInt b) = (a =? b).
 Proof.
   unfold json_items_eq. cbn [jtext]. apply Bool.eq_iff_eq_true. rewrite str_eqb_eq, Z.eqb_eq. split; [apply fmt_d_inj | now intros ->].
 Qed.
+
+(* ------------------------------------------------------------------ PostgreSQL: the text[] literal PGSQLBuilder.eval_json_path writes is read back by the
+   documented array-literal syntax as the texts of the path steps *)
+Section PgPath.
+Variable uw : Z -> bool.
+
+Definition pg_key_ok (k : pkey) : bool :=
+  match k with
+  | KIdx _ => true
+  | KKey s => forallb (fun c => negb (c =? c_bslash)) s && (negb (is_ident uw s) || negb (is_null_word s))
+  end.
+
+Lemma pg_quoted_esc s rest : forallb (fun c => negb (c =? c_bslash)) s = true ->
+  pg_quoted (esc_quote s ++ c_quote :: rest) = Some (s, rest).
+Proof.
+  induction s as [|c s IH]; intros H.
+  - cbn. reflexivity.
+  - cbn [forallb] in H. apply andb_true_iff in H as [Hc Hs]. apply negb_true_iff in Hc.
+    cbn [esc_quote flat_map]. fold (esc_quote s). destruct (c =? c_quote) eqn:Eq.
+    + apply Z.eqb_eq in Eq. subst c. cbn [app pg_quoted].
+      replace (c_bslash =? c_quote) with false by reflexivity. replace (c_bslash =? c_bslash) with true by reflexivity.
+      now rewrite (IH Hs).
+    + cbn [app pg_quoted]. rewrite Eq, Hc. now rewrite (IH Hs).
+Qed.
+
+Definition after_fn (f : nat) (e : pgelem) (rest : str) : option (list pgelem) :=
+  match rest with
+  | c :: r => if c =? c_comma then match pg_elems f r with Some es => Some (e :: es) | None => None end
+              else if c =? c_rbrace then match r with [] => Some [e] | _ => None end
+              else None
+  | [] => None
+  end.
+
+Definition stops (tail : str) : Prop := exists r, tail = c_comma :: r \/ tail = c_rbrace :: r.
+
+Lemma span_plain w tail : forallb pg_plain w = true -> stops tail -> span pg_plain (w ++ tail) = (w, tail).
+Proof. intros Hw [r [->| ->]]; apply span_app; auto. Qed.
+
+Lemma word_plain c : is_word uw c = true -> pg_plain c = true.
+Proof.
+  unfold is_word, pg_plain, is_alpha, is_digit, c_us, c_comma, c_rbrace, c_lbrace, c_quote, c_bslash.
+  destruct (c <? 128) eqn:E; intros H; lia.
+Qed.
+
+Lemma digit_plain c : is_digit c = true -> pg_plain c = true.
+Proof. unfold is_digit, pg_plain, c_comma, c_rbrace, c_lbrace, c_quote, c_bslash. lia. Qed.
+
+Lemma forallb_impl (p q : Z -> bool) l : (forall c, p c = true -> q c = true) -> forallb p l = true -> forallb q l = true.
+Proof. intros H. induction l as [|c l IH]; cbn; [auto|]. intros Hl. apply andb_true_iff in Hl as [H1 H2]. now rewrite (H c H1), IH. Qed.
+
+Lemma fmt_d_plain i : forallb pg_plain (fmt_d i) = true /\ fmt_d i <> [] /\ is_null_word (fmt_d i) = false
+                      /\ exists c r, fmt_d i = c :: r /\ (c =? c_quote) = false.
+Proof.
+  unfold fmt_d. destruct (i <? 0) eqn:E.
+  - destruct (digits_ok (- i)) as [_ [H2 H3]]; [lia|]. split; [|split; [|split]].
+    + cbn [forallb]. rewrite (forallb_impl is_digit pg_plain _ digit_plain H2). reflexivity.
+    + discriminate.
+    + reflexivity.
+    + exists c_minus, (digits (- i)). split; reflexivity.
+  - destruct (digits_ok i) as [_ [H2 H3]]; [lia|]. destruct (digits i) as [|d r] eqn:Ed; [congruence|].
+    assert (Hd : is_digit d = true) by (cbn in H2; now apply andb_true_iff in H2 as [H _]).
+    split; [|split; [|split]].
+    + now apply (forallb_impl is_digit pg_plain _ digit_plain).
+    + discriminate.
+    + unfold is_null_word, t_null. cbn [map str_eqb]. unfold lower, is_digit in *. replace ((65 <=? d) && (d <=? 90)) with false by lia.
+      replace (d =? 110) with false by lia. reflexivity.
+    + exists d, r. split; [reflexivity|]. unfold is_digit, c_quote in *. lia.
+Qed.
+
+Lemma pg_item_step k tail f : pg_key_ok k = true -> stops tail ->
+  pg_elems (S f) (pg_item uw k ++ tail) = after_fn f (PText (pg_key_text k)) tail.
+Proof.
+  intros Hk Ht. destruct k as [i|s]; cbn [pg_item pg_key_text].
+  - destruct (fmt_d_plain i) as [Hp [Hne [Hnull [c [r [Hc Hq]]]]]].
+    cbn [pg_elems]. rewrite Hc. cbn [app]. rewrite Hq. rewrite <- Hc. change (c :: r ++ tail) with ((c :: r) ++ tail). rewrite <- Hc.
+    rewrite (span_plain _ _ Hp Ht). rewrite Hc at 1. rewrite Hnull. reflexivity.
+  - cbn [pg_key_ok] in Hk. apply andb_true_iff in Hk as [Hb Hn].
+    destruct (is_ident uw s) eqn:Eid.
+    + destruct (ident_word uw s Eid) as [Hw Hne]. cbn [negb orb] in Hn. apply negb_true_iff in Hn.
+      destruct s as [|c r]; [congruence|].
+      assert (Hq : (c =? c_quote) = false).
+      { cbn in Eid. apply andb_true_iff in Eid as [Hc _]. unfold is_alpha, c_us, c_quote in *. lia. }
+      cbn [pg_elems app]. rewrite Hq. change (c :: r ++ tail) with ((c :: r) ++ tail).
+      rewrite (span_plain _ _ (forallb_impl _ _ _ word_plain Hw) Ht). now rewrite Hn.
+    + cbn [pg_elems app]. replace (c_quote =? c_quote) with true by reflexivity.
+      rewrite <- app_assoc. cbn [app]. now rewrite (pg_quoted_esc s tail Hb).
+Qed.
+
+Lemma pg_item_len k : (1 <= length (pg_item uw k))%nat.
+Proof.
+  destruct k as [i|s]; cbn [pg_item].
+  - destruct (fmt_d_plain i) as [_ [_ [_ [c [r [Hc _]]]]]]. rewrite Hc. cbn. lia.
+  - destruct (is_ident uw s) eqn:E; [destruct (ident_word uw s E) as [_ Hne]; destruct s; [congruence | cbn; lia] | cbn; lia].
+Qed.
+
+Lemma pg_elems_ok : forall keys k fuel, forallb pg_key_ok (k :: keys) = true ->
+  (length (join_comma (map (pg_item uw) (k :: keys)) ++ [c_rbrace]) <= fuel)%nat ->
+  pg_elems fuel (join_comma (map (pg_item uw) (k :: keys)) ++ [c_rbrace]) = Some (map (fun x => PText (pg_key_text x)) (k :: keys)).
+Proof.
+  induction keys as [|k2 keys IH]; intros k fuel Hok Hlen.
+  - cbn [map join_comma] in *. cbn [forallb] in Hok. rewrite andb_true_r in Hok.
+    destruct fuel as [|f]; [rewrite app_length in Hlen; cbn in Hlen; lia|].
+    rewrite (pg_item_step k [c_rbrace] f Hok); [|exists []; now right]. reflexivity.
+  - cbn [forallb] in Hok. apply andb_true_iff in Hok as [Hk Hrest].
+    change (join_comma (map (pg_item uw) (k :: k2 :: keys))) with (pg_item uw k ++ c_comma :: join_comma (map (pg_item uw) (k2 :: keys))) in *.
+    rewrite <- app_assoc in *. cbn [app] in *. pose proof (pg_item_len k) as Hl.
+    destruct fuel as [|f]; [rewrite app_length in Hlen; cbn in Hlen; lia|].
+    rewrite (pg_item_step k _ f Hk); [|eexists; left; reflexivity].
+    cbn [after_fn]. replace (c_comma =? c_comma) with true by reflexivity.
+    rewrite (IH k2 f Hrest); [reflexivity|]. rewrite app_length in Hlen. cbn [length] in Hlen. lia.
+Qed.
+
+(* C29_pg_path *)
+Lemma pg_path_roundtrip keys : forallb pg_key_ok keys = true ->
+  pg_array (pg_json_path uw keys) = Some (map (fun k => PText (pg_key_text k)) keys).
+Proof.
+  intros Hok. unfold pg_json_path, pg_array. replace (c_lbrace =? c_lbrace) with true by reflexivity.
+  destruct keys as [|k keys]; [reflexivity|].
+  remember (join_comma (map (pg_item uw) (k :: keys)) ++ [c_rbrace]) as body eqn:Eb0.
+  assert (Hb : pg_elems (length body) body = Some (map (fun x => PText (pg_key_text x)) (k :: keys))).
+  { rewrite Eb0. apply pg_elems_ok; [assumption | apply Nat.le_refl]. }
+  assert (Hj : (1 <= length (join_comma (map (pg_item uw) (k :: keys))))%nat).
+  { pose proof (pg_item_len k) as Hl. cbn [map join_comma]. destruct (map (pg_item uw) keys); [assumption | rewrite app_length; lia]. }
+  assert (Hlen : (2 <= length body)%nat) by (rewrite Eb0, app_length; cbn [length]; lia).
+  destruct body as [|c [|c2 r]]; cbn [length] in Hlen; try lia. exact Hb.
+Qed.
+End PgPath.
+
+(* witnesses for the PostgreSQL path text (documentation model) *)
+Lemma pg_null_key_unquoted : pg_array (pg_json_path ascii_only [KKey t_null]) = Some [PNull].
+Proof. reflexivity. Qed.
+Lemma pg_backslash_key : pg_array (pg_json_path ascii_only [KKey [97; c_bslash; 98]]) = Some [PText [97; 98]].
+Proof. reflexivity. Qed.
